@@ -1,5 +1,5 @@
 _Q = {"strata": "cte", "allow": "cte_shadow,dup_derived_names", "deny": "cross_join", "joins": "1"}
-_M = {"strata": "cte", "deny": "cross_join,join", "joins": "0", "multi": "1", "cfgs": "memb", "max_rows": "2500"}
+_M = {"strata": "cte", "nojoin": "1", "multi": "1", "cfgs": "memb", "max_rows": "2500"}
 ENTRY = {
     "level": "proof",
     "families": [fam("SQLC28", 260, 12000, opts={"quick": _Q, "thorough": dict(_Q, joins="2")}),
